@@ -33,4 +33,19 @@ var Props = []*h.Prop{
 		Real:        realStore,
 		Stub:        stubStore,
 		Assumptions: []string{"only errors a Linux kernel can return for that operation on a regular file are injected (no short reads, no EINTR)", "an error that strikes at or after the commit point (metadata rename) may leave the block committed although the call reports failure: un-acknowledged data may be old or new, never damaged"}},
+	{ID: "C01", Run: c01,
+		Rule:        "one evaluation = one generated history of 2-6 raw write sessions (arbitrary column payloads 0 B-300 KiB biased to the 4 KiB / 8 KiB buffer sizes, compressible and incompressible, all encoders, levels 0-12, several days and interfaces, restart between sessions) plus flow-level write-outs; after every session everything written so far is read back with the default and the read-all reader, in forward and reverse block order; non-trivial = every run (>= 2 sessions); distinct = distinct event-log hash",
+		Real:        realStore,
+		Stub:        stubStore,
+		Assumptions: []string{"fault-free configuration of the store simulation (faults are C04/C05)", "input space of payloads is sampled, not enumerated"}},
+	{ID: "C03", Run: c03,
+		Rule:        "one evaluation = one generated history of sessions whose timestamps come from a jumping clock (equal, backwards, before the day's first block, gaps of 2^32-1 and beyond, negative) and whose summaries reach beyond 2^32-1 / near 2^64, each checked accepted=>reopens equal / rejected=>day unchanged, followed by >= 30 malformed variants of the real .blockmeta (prefixes = torn metadata writes, bit flips, garbage, blown-up count and length fields) fed to the reader, the listing, the query engine and the writer's open path; non-trivial = every run; distinct = distinct event-log hash",
+		Real:        realStore,
+		Stub:        stubStore,
+		Assumptions: []string{"a hang (as opposed to a panic) on malformed metadata would surface as a worker time-out (exit 2), not as a VIOLATION line"}},
+	{ID: "C12", Run: c12,
+		Rule:        "one evaluation = one generated write-out history (1-2 interfaces, up to several days incl. month/year ends) with 12 drawn (first,last) ranges per interface at 1-4 points of the history: bounds on block stamps, +-1 s around them, between blocks, on day boundaries, before/after all data, first=last; each compared with the model sum and with the totals of a real query; non-trivial = every run; distinct = distinct event-log hash",
+		Real:        realStore,
+		Stub:        stubStore,
+		Assumptions: []string{"range bounds are inclusive on both ends (first <= block time <= last), as the query engine treats them"}},
 }
